@@ -108,7 +108,7 @@ class C14(Prop):
     RULE = ("operands with 0..4 storages over 1..3 of 5 mount points, keys equal to the mount point, arbitrary, aliasing, or "
             "equal to another storage's mount point; sizes 0..20 biased to ties and zero; paths/binds; second operands derived "
             "from the first (same keys, boundary sizes +-1, missing/foreign mounts); amounts as ints, Fractions n/D, dyadic "
-            "floats. Kinds: addsub, add, sub, or, norm, sat, new. Non-trivial = some operand has >=2 storages or a key "
+            "floats. Kinds: addsub, subadd (un-normalised aliasing left operand, fitting right operand), add, sub, or, norm, sat, new. Non-trivial = some operand has >=2 storages or a key "
             "different from its mount point. Distinct = distinct canonical JSON.")
     TRUSTED = ("model: Hardware/Model.v (Storage.__init__/__add__/__sub__/__ior__, _reduce_storages, Hardware.__init__/"
                "__add__/__sub__/__or__/normalized/is_normalized/satisfies) is hand-written; CPython dict insertion order, "
@@ -162,6 +162,33 @@ class C14(Prop):
             s.append([extra, extra, rng.choice([0, 1, 4]), [], None])
         return {"c": max(0, a["c"] + rng.choice([-1, 0, 0, 1])), "m": max(0, a["m"] + rng.choice([-1, 0, 0, 1])), "s": s}
 
+    def _fitting(self, rng, a):
+        """requirement whose mount points are among a's and which fits per mount point (what the scheduler subtracts)"""
+        ta = totals(a) or {"/": 0}
+        mounts = list(ta)
+        rng.shuffle(mounts)
+        mounts = mounts[:rng.randrange(1, len(mounts) + 1)]
+        s = []
+        for i, mnt in enumerate(mounts):
+            want = rng.choice([0, ta[mnt], ta[mnt], max(0, ta[mnt] - 1), ta[mnt] // 2])
+            if rng.random() < 0.4 and want >= 2:
+                x = rng.randrange(0, want + 1)
+                s.append([f"r{i}a", mnt, x, [], None])
+                s.append([f"r{i}b", mnt, want - x, [], None])
+            else:
+                s.append([mnt if rng.random() < 0.5 else f"r{i}", mnt, want, [], rng.choice(BINDS)])
+        return {"c": rng.choice([0, a["c"], max(0, a["c"] - 1)]), "m": rng.choice([0, a["m"], max(0, a["m"] - 1)]), "s": s}
+
+    def _aliasing(self, rng, mounts):
+        """un-normalised operand: several keys on one mount point (at least one mount point aliased)"""
+        a = self._hw(rng, mounts, allow_empty=False)
+        m = rng.choice(mounts)
+        base = len(a["s"])
+        for j in range(rng.randrange(2, 4)):
+            a["s"].append([f"al{base + j}", m, rng.choice([1, 2, 3, 5, 8]), [], None])
+        rng.shuffle(a["s"])
+        return a
+
     def _samekeys(self, rng, a):
         s = []
         for key, mount, size, paths, bind in a["s"]:
@@ -175,7 +202,7 @@ class C14(Prop):
         return {"c": rng.choice([0, 1, 3]), "m": rng.choice([0, 2, 5]), "s": s}
 
     def gen(self, rng, tier):
-        n = {"quick": 3000, "thorough": 30000, "extended": 12000}[tier]
+        n = {"quick": 3000, "thorough": 30000, "extended": 6000}[tier]
         cases = []
         for _ in range(n):
             r = rng.random()
@@ -183,9 +210,13 @@ class C14(Prop):
             den = 1 if mode == "int" else (rng.choice([3, 7, 10, 1000]) if mode == "frac" else rng.choice([2, 8, 1024]))
             mounts = rng.sample(MOUNTS, rng.randrange(1, 4))
             a = self._hw(rng, mounts)
-            if r < 0.25:
+            if r < 0.2:
                 b = self._hw(rng, mounts if rng.random() < 0.6 else None)
                 c = {"f": "addsub", "a": a, "b": b}
+            elif r < 0.3:
+                if rng.random() < 0.7:
+                    a = self._aliasing(rng, mounts)
+                c = {"f": "subadd", "a": a, "b": self._fitting(rng, a)}
             elif r < 0.35:
                 c = {"f": "add", "a": a, "b": self._hw(rng)}
             elif r < 0.5:
@@ -230,6 +261,10 @@ class C14(Prop):
             s = k.guarded(lambda: a + b, den)
             r = k.guarded(lambda: (a + b) - b, den)
             return {"s": s, "r": r}
+        if f == "subadd":
+            d = k.guarded(lambda: a - b, den)
+            r = k.guarded(lambda: (a - b) + b, den)
+            return {"d": d, "r": r}
         if f == "norm":
             r = k.guarded(lambda: a.normalized(), den)
             r2 = k.guarded(lambda: a.normalized().normalized(), den)
@@ -258,6 +293,28 @@ class C14(Prop):
             for m in set(ta) | set(tr):
                 if ta.get(m, 0) != tr.get(m, 0):
                     return ("addsub-mount", f"(a+b)-b has {tr.get(m, 0)} on {m}, a has {ta.get(m, 0)}")
+        if f in ("sub", "subadd"):
+            # the law the scheduler relies on (capacity - ledger, ledger - job): when b's mount points are among x's
+            # and b fits per mount point, x - b is defined and exact per mount point; adding b back restores x
+            b = c["b"]
+            tx, tb = (ta or {"/": 0}), (totals(b) or {"/": 0})
+            if all(m in tx and v <= tx[m] for m, v in tb.items()):
+                d = o["d"] if f == "subadd" else o["r"]
+                if "err" in d:
+                    return ("sub-raises", f"x - b raised {d['err']} although b fits x on every mount point: x={a} b={b}")
+                td = totals(d)
+                if d["c"] != a["c"] - b["c"] or d["m"] != a["m"] - b["m"]:
+                    return ("sub-cores-mem", f"x - b has cores/memory {d['c']}/{d['m']}, expected {a['c'] - b['c']}/{a['m'] - b['m']}")
+                for m in set(tx) | set(td):
+                    if td.get(m, 0) != tx.get(m, 0) - tb.get(m, 0):
+                        return ("sub-mount", f"x - b has {td.get(m, 0)} on {m}, x has {tx.get(m, 0)} and b {tb.get(m, 0)}: x={a} b={b}")
+                if f == "subadd":
+                    r = o["r"]
+                    if "err" in r:
+                        return ("subadd-raises", f"(x-b)+b raised {r['err']} for x={a} b={b}")
+                    tr = totals(r)
+                    if r["c"] != a["c"] or r["m"] != a["m"] or any(tr.get(m, 0) != tx.get(m, 0) for m in set(tx) | set(tr)):
+                        return ("subadd-restores", f"(x-b)+b = {r} does not restore the totals of x={a}")
         if f == "norm":
             r = o["r"]
             if "err" in r or "err" in o["r2"]:
@@ -302,6 +359,8 @@ class C14(Prop):
             return f"COr {a} {b} {coq_res_hw(o['r'])}"
         if f == "addsub":
             return f"CAddSub {a} {b} {coq_res_hw(o['s'])} {coq_res_hw(o['r'])}"
+        if f == "subadd":
+            return f"CSubAdd {a} {b} {coq_res_hw(o['d'])} {coq_res_hw(o['r'])}"
         if f == "norm":
             return f"CNorm {a} {coq_res_hw(o['r'])} {coq_bool(o['isn'])} {coq_res_hw(o['r2'])}"
         if f == "sat":
